@@ -11,7 +11,8 @@
 (***************************************************************************)
 EXTENDS Setup, Codebook, Floor1
 
-Word(s, book, entry) == LET b == s.books[book + 1] cw == Codewords(b.lens) IN WordBits(cw[entry].w, b.lens[entry])
+\* (a set-up may carry the codeword tables of its books in a field cw, computed once by the generator)
+Word(s, book, entry) == LET b == s.books[book + 1] cw == IF "cw" \in DOMAIN s THEN s.cw[book + 1] ELSE Codewords(b.lens) IN WordBits(cw[entry].w, b.lens[entry])
 UsedEntries(b) == { j \in 1..Len(b.lens) : b.lens[j] > 0 }
 \* a deterministic pseudo-random choice of a used entry of a book
 Pick(s, book, salt) == LET b == s.books[book + 1] U == UsedEntries(b) n == Cardinality(U) k == salt % n
